@@ -653,3 +653,67 @@ Theorem C15_discovery_checker_accepts_model_partial : forall pr acts,
   end.
 Proof. exact Discovery_checker.disc_checker_pool_view_accept_model. Qed.
 Print Assumptions C15_discovery_checker_accepts_model_partial.
+
+(* Second part of the one-theorem form: for every driver schedule in which no list id is read twice,
+   the per-effect bookkeeping of the mode-3 checker never reports view:hang on the machine's own run
+   (every IsConnected answer belongs to a handler that still has entries, every handler return carries
+   the expected code: 0 only when nothing is left, 1 only for a failed read, 2 after its context ended).
+   The premise is needed (Discovery_checker.disc_checker_hang_premise_needed: the machine ignores a
+   second list with a used id, the checker's bookkeeping does not).  Still missing for the whole
+   checker: gossip:dialled-known and gossip:unproven (the due / flying lists of the bookkeeping against
+   the offered heads, the dispatcher's hand and the flying list of the machine, as multisets of
+   underlays) and the answer part of the view clause at an IsConnected answer. *)
+Theorem C15_discovery_checker_accepts_model_partial2 : forall acts,
+  NoDup (Discovery_checker.list_ids acts) ->
+  match grun pool_width dinit acts with
+  | (effs, _, _) => ~ In "view:hang"%string (snd (g_run (mkG [] [] [] [] abs_init) acts effs))
+  end.
+Proof. exact Discovery_checker.disc_checker_hang_accept_model. Qed.
+Print Assumptions C15_discovery_checker_accepts_model_partial2.
+
+(* Third part: under the same premise the per-effect bookkeeping never reports "view" on the machine's
+   own run -- every IsConnected answer seen is the answer the checker recomputes, for the head entry of
+   that handler, from the schedule's topology events and the AddPeers calls seen (so the answer half of
+   gossip:dialled-known is silent as well: the report list of every IsConnected effect is empty,
+   Discovery_checker.first_view).  Still missing here (the first is closed by _partial4 below): a Connect call always finds its entry in the due list
+   (multiset of underlays of offered heads + dispatcher's hand), and an AddPeers finds its Connect in
+   the flying list; the latter needs "the internal steps have run dry after every action" as an
+   invariant of the compiled schedules. *)
+Theorem C15_discovery_checker_accepts_model_partial3 : forall acts,
+  NoDup (Discovery_checker.list_ids acts) ->
+  match grun pool_width dinit acts with
+  | (effs, _, _) => ~ In "view"%string (snd (g_run (mkG [] [] [] [] abs_init) acts effs))
+  end.
+Proof. exact Discovery_checker.disc_checker_answers_accept_model. Qed.
+Print Assumptions C15_discovery_checker_accepts_model_partial3.
+
+(* Fourth part: under the same premise the clause gossip:dialled-known is silent on the machine's own
+   run, for every driver schedule: no "unknown" answer for an address the checker's sets hold, and every
+   Connect call takes an entry of the checker's due list (invariant: per underlay, offered heads +
+   dispatcher's hand of the machine are at most the due entries of the bookkeeping), hence a Connect
+   call is never reported at all.  What is still missing for the whole mode-3 checker is only
+   gossip:unproven at an AddPeers effect (the peer is the one the completion returned and its Connect is
+   in the checker's flying list): the flying-list half needs "the internal steps have run dry after
+   every action of a compiled schedule" as an invariant, because a completion for an underlay that is not
+   flying followed in the same action by a Connect call for that underlay would be taken off the
+   checker's list while it flies in the machine. *)
+Theorem C15_discovery_checker_accepts_model_partial4 : forall acts,
+  NoDup (Discovery_checker.list_ids acts) ->
+  match grun pool_width dinit acts with
+  | (effs, _, _) => ~ In "gossip:dialled-known"%string (snd (g_run (mkG [] [] [] [] abs_init) acts effs))
+  end.
+Proof. exact Discovery_checker.disc_checker_dialled_known_accept_model. Qed.
+Print Assumptions C15_discovery_checker_accepts_model_partial4.
+
+(* Summary of parts 2-4 (with the _partial theorem above for gossip:pool and the final view clause): for
+   every driver schedule in which no list id is read twice, the only report the per-effect bookkeeping
+   of the mode-3 checker can make on the machine's own run is gossip:unproven (and, by part 4, never at
+   a Connect call: only at an AddPeers effect).  Missing for the one-theorem form: exactly that. *)
+Theorem C15_discovery_checker_accepts_model_partial5 : forall acts,
+  NoDup (Discovery_checker.list_ids acts) ->
+  match grun pool_width dinit acts with
+  | (effs, _, _) =>
+      forall str, In str (snd (g_run (mkG [] [] [] [] abs_init) acts effs)) -> str = "gossip:unproven"%string
+  end.
+Proof. exact Discovery_checker.disc_checker_only_unproven. Qed.
+Print Assumptions C15_discovery_checker_accepts_model_partial5.
